@@ -23,9 +23,22 @@
    uniform factor (C05_recurrence_ignores_uniform_sigma_factor), and Brandes' lemma holds in the
    weighted shortest-path DAG (Proofs/BrandesDag.v, generic in the DAG).  Observation 52 (model =
    definition evaluated per generated graph) and 51 (tie choice unobservable) remain as
-   correspondence checks. *)
-From Coq Require Import String List Bool ZArith Arith QArith.
-From GV Require Import Base.Outcome Base.AMap Model.GState Model.Query Model.Cent Model.Brandes.
+   correspondence checks.
+   END TO END (round 2, Proofs/BrandesWF.v): C05_betweenness_WF / _reachable / _constructed — for
+   every graph state satisfying the coherence invariant WF, hence every state reachable by any
+   history of mutations (positive real stored weights in weighted mode; any weights in hop-count
+   mode) and every tie choice of the heap, `betweenness_centrality` returns Ok (no error, no panic,
+   fuel never exhausted), one entry per node in node order, with values equal to [bc_def] of the
+   EDGE-STORE GRAPH: one row per node, arc i -> j of cost c iff an edge is stored between the i-th
+   and the j-th node (either orientation when undirected), c = 1 (hop count) or the minimum stored
+   weight of the pair (weighted) — the relation [edge_arc] of Spec/EdgeStoreGraph.v.  The row
+   hypotheses of the model theorems ([rows_nodup], [rows_pos], existence of the conversion) are
+   consequences of WF (C05_WF_gives_model_hypotheses); observation 53 stays as a per-case tie
+   between model and code.  [bc_def] does not depend on the order of the entries in a row
+   (C05_def_row_order_irrelevant), so the value is a function of the arc relation alone. *)
+From Coq Require Import String List Bool ZArith Arith QArith Permutation.
+From GV Require Import Base.Outcome Base.AMap Model.GState Model.Creation Model.Query Model.Cent Model.Brandes.
+From GV Require Import Spec.History Spec.EdgeStoreGraph Spec.EdgeStoreAdj Proofs.WFDefs Proofs.HistoryOk Proofs.DijkstraWF Proofs.BrandesWF Proofs.BrandesWFExamples.
 From GV Require Import Spec.BetweennessDef Spec.ClosenessDef Proofs.BrandesOk Proofs.BrandesAccOk Proofs.ClosenessBfsOk Proofs.BrandesBfsOk Proofs.PathsOk Proofs.BrandesLemma Proofs.BrandesLemma2 Proofs.BrandesFull Proofs.DijkstraOk Proofs.BrandesHeapOk Proofs.BrandesDag Proofs.PathsWOk Proofs.BrandesWeighted.
 Import ListNotations.
 
@@ -322,3 +335,170 @@ Theorem C05_weighted_nonvacuous :
   (exists bet, bc_core false true ex_wg = Some bet /\ get 0 bet 4%nat == 2 /\ get 0 bet 1%nat == 0) /\
   (exists bet, bc_core true true ex_wg = Some bet /\ get 0 bet 4%nat == 2 /\ get 0 bet 1%nat == 0).
 Proof. exact ex_weighted_hyps. Qed.
+
+(* ================================================================ END TO END: every reachable graph *)
+
+(* the definition is a function of the arc relation: reordering the entries of the rows does not
+   change it, and two adjacencies with one entry per neighbour and the same entries agree *)
+Theorem C05_def_row_order_irrelevant : forall (a a' : qadj) normalized directed,
+  length a = length a' -> (forall v, Permutation (get [] a v) (get [] a' v)) ->
+  bc_def a normalized directed = bc_def a' normalized directed.
+Proof. exact bc_def_rows_perm. Qed.
+
+Theorem C05_def_depends_on_arcs_only : forall (a a' : qadj) normalized directed,
+  length a = length a' ->
+  (forall v, NoDup (map fst (get [] a v))) -> (forall v, NoDup (map fst (get [] a' v))) ->
+  (forall v e, In e (get [] a v) <-> In e (get [] a' v)) ->
+  bc_def a normalized directed = bc_def a' normalized directed.
+Proof. exact bc_def_arcs_only. Qed.
+
+(* the hop-count core never runs out of fuel either (weighted: C05_weighted_total) *)
+Theorem C05_hop_count_total : forall (g : qadj),
+  adj_ok (length g) g = true -> (forall v, NoDup (map fst (get [] g v))) ->
+  forall lw, exists bet, bc_core lw false g = Some bet.
+Proof. exact hop_core_total. Qed.
+
+Section Reachable.
+  Context {T A : Type}.
+  Variable teqb : T -> T -> bool.
+  Variable tltb : T -> T -> bool.
+  Hypothesis teqb_spec : forall x y, teqb x y = true <-> x = y.
+  Hypothesis tltb_asym : forall x y, tltb x y = true -> tltb y x = false.
+  Hypothesis tltb_total : forall x y, tltb x y = false -> tltb y x = false -> x = y.
+  Notation gstate := (gstate T A).
+  Notation WF := (@WF T A teqb tltb).
+
+  (* what "a is the edge-store graph of g" says *)
+  Theorem C05_edge_store_adj_meaning : forall (g : gstate) weighted (a : qadj),
+    edge_store_adj teqb g weighted a <->
+    length a = number_of_nodes g /\
+    (forall i, NoDup (map fst (get [] a i))) /\
+    (forall i j q, In (j, q) (get [] a i) <-> exists c, q = inject_Z c /\ edge_arc teqb g weighted i j c).
+  Proof. intros. reflexivity. Qed.
+
+  (* the adjacency the algorithm reads IS the edge-store graph *)
+  Theorem C05_traversal_graph_is_edge_store : forall (g : gstate) weighted (a : qadj),
+    WF g -> conv_adj weighted (successors_vec g) = Some a ->
+    length a = number_of_nodes g /\
+    (forall i, NoDup (map fst (get [] a i))) /\
+    (forall i j q, In (j, q) (get [] a i) <-> exists c, q = inject_Z c /\ edge_arc teqb g weighted i j c).
+  Proof. exact (conv_adj_edge_store teqb tltb teqb_spec tltb_total). Qed.
+
+  (* weighted mode: the cost of an arc is THE minimum stored weight of the pair *)
+  Theorem C05_arc_cost_is_min_weight : forall (g : gstate) i j x y,
+    WF g -> name_at g i = Some x -> name_at g j = Some y -> between teqb g x y <> [] ->
+    (forall e, In e (between teqb g x y) -> exists z, ew e = Some z) ->
+    exists c, edge_arc teqb g true i j c /\
+              (exists e, In e (between teqb g x y) /\ ew e = Some c) /\
+              (forall e z, In e (between teqb g x y) -> ew e = Some z -> (c <= z)%Z) /\
+              forall c', edge_arc teqb g true i j c' -> c' = c.
+  Proof. exact (edge_arc_min_weight teqb tltb teqb_spec tltb_total). Qed.
+
+  (* every hypothesis of C05_model_hop_count / C05_model_weighted follows from WF (and, in weighted
+     mode, from "every stored weight is a positive real") *)
+  Theorem C05_WF_gives_model_hypotheses : forall (g : gstate) weighted,
+    WF g -> (weighted = true -> weights_real_positive g) ->
+    exists a, conv_adj weighted (successors_vec g) = Some a /\
+              edge_store_adj teqb g weighted a /\
+              adj_ok (number_of_nodes g) a = true /\
+              rows_nodup a = true /\
+              (weighted = true -> rows_pos a = true).
+  Proof. exact (brandes_hypotheses_WF teqb tltb teqb_spec tltb_total). Qed.
+
+  (* END TO END.  For every coherent state, every tie choice [lw] of the BinaryHeap, both modes and
+     both scalings: the call returns Ok — no error, no panic, fuel never exhausted — one entry per
+     node in node order, and the values are those of the definition [bc_def] (fraction of the
+     shortest s-t paths through v, summed over ordered pairs, shortest = minimal total cost, with
+     the rescaling rules) on the EDGE-STORE GRAPH [a]: one row per node, one entry per neighbour,
+     (j, c) in row i iff an edge is stored between the i-th and the j-th node (either orientation
+     when undirected) and c is 1 (hop count) / the minimum stored weight of the pair (weighted). *)
+  Theorem C05_betweenness_WF : forall (g : gstate) lw weighted normalized,
+    WF g ->
+    (weighted = true -> forall e, In e (get_all_edges g) -> exists z, ew e = Some z /\ (0 < z)%Z) ->
+    exists m a,
+      betweenness_centrality lw g weighted normalized = Ok m /\
+      map fst m = names g /\
+      length a = number_of_nodes g /\
+      (forall i, NoDup (map fst (get [] a i))) /\
+      (forall i j q, In (j, q) (get [] a i) <-> exists c, q = inject_Z c /\ edge_arc teqb g weighted i j c) /\
+      Forall2 Qeq (map snd m) (bc_def a normalized (directed (sp g))).
+  Proof.
+    intros g lw weighted normalized W Hpos.
+    destruct (betweenness_WF teqb tltb teqb_spec tltb_total g lw weighted normalized W Hpos) as [m [a [H1 [H2 [_ [H3 H4]]]]]].
+    exists m, a. split; [exact H1|]. split; [exact H2|]. destruct H3 as [L [N M]]. auto.
+  Qed.
+
+  (* ... and the value does not depend on which adjacency is used to write the edge-store graph down *)
+  Theorem C05_betweenness_WF_any_adjacency : forall (g : gstate) lw weighted normalized,
+    WF g -> (weighted = true -> weights_real_positive g) ->
+    exists m,
+      betweenness_centrality lw g weighted normalized = Ok m /\
+      map fst m = names g /\
+      forall a, edge_store_adj teqb g weighted a ->
+                Forall2 Qeq (map snd m) (bc_def a normalized (directed (sp g))).
+  Proof. exact (betweenness_WF_any_adj teqb tltb teqb_spec tltb_total). Qed.
+
+  (* hence for every state reached by any history of mutations from Graph::new(specs) ... *)
+  Corollary C05_betweenness_reachable : forall (s : specs) (g : gstate) lw weighted normalized,
+    reachable teqb tltb s g ->
+    (weighted = true -> forall e, In e (get_all_edges g) -> exists z, ew e = Some z /\ (0 < z)%Z) ->
+    exists m a,
+      betweenness_centrality lw g weighted normalized = Ok m /\
+      map fst m = names g /\
+      length a = number_of_nodes g /\
+      (forall i, NoDup (map fst (get [] a i))) /\
+      (forall i j q, In (j, q) (get [] a i) <-> exists c, q = inject_Z c /\ edge_arc teqb g weighted i j c) /\
+      Forall2 Qeq (map snd m) (bc_def a normalized (directed s)).
+  Proof.
+    intros s g lw weighted normalized R.
+    rewrite <- (reachable_sp teqb tltb teqb_spec tltb_asym tltb_total s g R).
+    apply C05_betweenness_WF. exact (WF_reachable teqb tltb teqb_spec tltb_asym tltb_total s g R).
+  Qed.
+
+  (* ... and for every graph returned by the constructor *)
+  Corollary C05_betweenness_constructed : forall ns es (s : specs) (g : gstate) lw weighted normalized,
+    new_from_nodes_and_edges teqb tltb ns es s = Ok g ->
+    (weighted = true -> forall e, In e (get_all_edges g) -> exists z, ew e = Some z /\ (0 < z)%Z) ->
+    exists m a,
+      betweenness_centrality lw g weighted normalized = Ok m /\
+      map fst m = names g /\
+      length a = number_of_nodes g /\
+      (forall i, NoDup (map fst (get [] a i))) /\
+      (forall i j q, In (j, q) (get [] a i) <-> exists c, q = inject_Z c /\ edge_arc teqb g weighted i j c) /\
+      Forall2 Qeq (map snd m) (bc_def a normalized (directed s)).
+  Proof.
+    intros ns es s g lw weighted normalized H.
+    exact (C05_betweenness_reachable s g lw weighted normalized (new_from_reachable teqb tltb teqb_spec ns es s g H)).
+  Qed.
+
+  (* two coherent states with the same node list, the same kind and the same edge-store arcs have
+     the same betweenness (same keys in the same order, values equal as rationals), whatever the
+     tie choices *)
+  Theorem C05_betweenness_depends_on_arcs_only : forall (g1 g2 : gstate) lw1 lw2 weighted normalized m1 m2,
+    WF g1 -> WF g2 ->
+    (weighted = true -> weights_real_positive g1) -> (weighted = true -> weights_real_positive g2) ->
+    names g1 = names g2 -> directed (sp g1) = directed (sp g2) ->
+    (forall i j c, edge_arc teqb g1 weighted i j c <-> edge_arc teqb g2 weighted i j c) ->
+    betweenness_centrality lw1 g1 weighted normalized = Ok m1 ->
+    betweenness_centrality lw2 g2 weighted normalized = Ok m2 ->
+    map fst m1 = map fst m2 /\ Forall2 Qeq (map snd m1) (map snd m2).
+  Proof. exact (betweenness_arcs_only teqb tltb teqb_spec tltb_total). Qed.
+End Reachable.
+
+(* non-vacuity: a directed graph under the KeepLast policy, built by a history that adds 1->2 (5),
+   2->3 (1), 1->3 (3) and then REPLACES the weight of 1->2 by 1, is reachable with positive real
+   weights; before the replacement node 2 lies on no shortest path (3 < 5+1), after it on the only
+   shortest 1-3 path (1+1 < 3): betweenness 0 -> 1 (1/2 normalized), for both tie choices; the
+   edge-store graph is [[(1,1);(2,3)];[(2,1)];[]] and the definition gives [0;1;0] on it *)
+Theorem C05_reachable_nonvacuous :
+  reachable Z.eqb Z.ltb bw_specs bw_g /\ weights_real_positive bw_g /\
+  get_all_edges bw_g_before =
+    [mkedge 1%Z 2%Z (Some 5%Z) None; mkedge 2%Z 3%Z (Some 1%Z) None; mkedge 1%Z 3%Z (Some 3%Z) None] /\
+  get_all_edges bw_g =
+    [mkedge 1%Z 2%Z (Some 1%Z) None; mkedge 2%Z 3%Z (Some 1%Z) None; mkedge 1%Z 3%Z (Some 3%Z) None] /\
+  betweenness_centrality false bw_g_before true false = Ok [(1%Z, 0); (2%Z, 0); (3%Z, 0)] /\
+  betweenness_centrality false bw_g true false = Ok [(1%Z, 0); (2%Z, 1); (3%Z, 0)] /\
+  betweenness_centrality true bw_g true true = Ok [(1%Z, 0); (2%Z, 1 # 2); (3%Z, 0)] /\
+  edge_store_adj Z.eqb bw_g true [[(1%nat, 1); (2%nat, 3)]; [(2%nat, 1)]; []] /\
+  bc_def [[(1%nat, 1); (2%nat, 3)]; [(2%nat, 1)]; []] false true = [0; 1; 0].
+Proof. exact betweenness_reachable_nonvacuous. Qed.
